@@ -312,9 +312,73 @@ fn wrapped_template(rng: &mut Rng, inner: Vec<u8>) -> Vec<u8> {
     v
 }
 
+/// Payload prefixes of embedded-data protocols found on the real chains (a filter keyed on one of them is
+/// invisible to random payloads)
+pub const KNOWN_PAYLOAD_PREFIXES: [&[u8]; 12] = [
+    &[0xaa, 0x21, 0xa9, 0xed], // BIP141 witness commitment
+    b"omni",
+    b"SPK",
+    b"CC\x02",
+    b"id;",
+    b"ASCRIBE",
+    b"DOCPROOF",
+    b"EW ",
+    b"BITPROOF",
+    &[0x52, 0x53, 0x4b, 0x42, 0x4c, 0x4f, 0x43, 0x4b, 0x3a], // RSKBLOCK:
+    b"http://",
+    &[0xfa, 0xbe, b'm', b'm'], // merged-mining tag
+];
+
+pub fn known_payload(rng: &mut Rng) -> Vec<u8> {
+    let mut p = rng.pick(&KNOWN_PAYLOAD_PREFIXES).to_vec();
+    if p[0] == 0xaa {
+        let n = if rng.chance(3, 4) { 32 } else { rng.usize(0, 40) };
+        p.extend(rng.bytes(n));
+    } else {
+        let n = rng.usize(0, 60);
+        p.extend(if rng.coin() { text(rng, n) } else { rng.bytes(n) });
+    }
+    p
+}
+
+/// scripts that exist verbatim on the real chains or are singled out by node policy
+pub fn well_known(rng: &mut Rng) -> Vec<u8> {
+    match rng.below(14) {
+        0 => vec![0x51, 0x02, 0x4e, 0x73], // pay-to-anchor
+        1 => op_return(&known_payload(rng)),
+        2 => {
+            // the genesis coinbase output
+            let mut k = unhex("04678afdb0fe5548271967f1a67130b7105cd6a828e03909a67962e0ea1f61deb649f6bc3f4cef38c4f35504e51ec112de5c384df7ba0b8d578a4c702b6bf11d5f").unwrap();
+            k.insert(0, 65);
+            k.push(0xac);
+            k
+        }
+        3 => p2pkh(&[0u8; 20]),
+        4 => p2sh(&[0u8; 20]),
+        5 => witness_prog(0, &[0u8; 20]),
+        6 => witness_prog(0, &[0u8; 32]),
+        7 => witness_prog(1, &[0u8; 32]),
+        8 => witness_prog(1, &[0xffu8; 32]),
+        9 => {
+            // runestone: OP_RETURN OP_13 <push>
+            let mut v = vec![0x6a, 0x5d];
+            v.extend(push(&rng.bytes_range(0, 30)));
+            v
+        }
+        10 => vec![0x6a],
+        11 => vec![0x51],
+        12 => p2pkh(&[0xffu8; 20]),
+        _ => vec![0x6a, 0x24, 0xaa, 0x21, 0xa9, 0xed],
+    }
+}
+
 pub fn fork_scripts(rng: &mut Rng, n: usize) -> Vec<Vec<u8>> {
     let mut out: Vec<Vec<u8>> = Vec::with_capacity(n);
     while out.len() < n {
+        if rng.chance(1, 40) {
+            out.push(well_known(rng));
+            continue;
+        }
         if rng.chance(1, 12) {
             let inner = template(rng.below(5), 0, rng);
             out.push(wrapped_template(rng, inner));
@@ -490,6 +554,10 @@ pub fn bitcoin_scripts(rng: &mut Rng, n: usize) -> Vec<Vec<u8>> {
         }
     };
     while out.len() < n {
+        if rng.chance(1, 40) {
+            out.push(well_known(rng));
+            continue;
+        }
         if rng.chance(1, 16) {
             if let Some(v) = near_duplicate(&out, rng) {
                 out.push(v);
@@ -599,7 +667,25 @@ pub fn bitcoin_scripts(rng: &mut Rng, n: usize) -> Vec<Vec<u8>> {
 
 /// hostile byte strings (C14): length 0..100 KB
 pub fn hostile(rng: &mut Rng) -> Vec<u8> {
-    match rng.below(15) {
+    match rng.below(17) {
+        15 => {
+            // OP_RETURN + one push of valid multi-byte UTF-8 of any length (character boundaries at every
+            // byte offset relative to any fixed cut a diagnostic might make)
+            let (a, b) = (rng.usize(0, 3), rng.usize(1, 120));
+            let mut t = text(rng, a);
+            t.extend(utf8_text(rng, b));
+            let mut v = vec![0x6a];
+            v.extend(crate::ser::push(&t));
+            v
+        }
+        16 => {
+            // OP_RETURN + ASCII interleaved with invalid bytes (lossy decoding puts U+FFFD at arbitrary offsets)
+            let n = rng.usize(1, 200);
+            let t: Vec<u8> = (0..n).map(|_| if rng.chance(1, 3) { 0x80 | rng.next() as u8 } else { b'a' + rng.below(26) as u8 }).collect();
+            let mut v = vec![0x6a];
+            v.extend(crate::ser::push(&t));
+            v
+        }
         12 => {
             // very short scripts: every opcode alone, OP_RETURN / push opcodes with 0..2 following bytes
             match rng.below(4) {
